@@ -880,6 +880,16 @@ func genC16Enum(g *genCtx) {
 		dcmiOp('M', n, 1+g.rng.Intn(8), "ok", [3]string{dcIDs(0, small()), dcIDs(1, small()), dcIDs(2, small())}, delta)
 		dcmiOp('M', [3]int{0, 0, 0}, 1+g.rng.Intn(8), "empty", [3]string{dcIDs(0, n[0]), dcIDs(1, n[1]), dcIDs(2, n[2])}, delta)
 	}
+	// a BMC holding MORE instances than the one-byte fields can count (the total reads 255, the instance start wraps):
+	// whatever it answers, the enumeration must end (C05: no unbounded loop, whatever the BMC's replies)
+	for _, big := range []int{256, 257, 263, 300, 600} {
+		for _, ps := range []int{1, 5, 7, 8} {
+			k := g.rng.Intn(3)
+			d := [3]string{dcIDs(0, small()), dcIDs(1, small()), dcIDs(2, small())}
+			d[k] = dcIDs(k, big)
+			dcmiOp('M', [3]int{0, 0, 0}, ps, "empty", d, 300) // reports min(255, n + 300) = 255
+		}
+	}
 	dcmiOp('M', [3]int{5, 5, 5}, 0, "ok", [3]string{"-", "-", "-"}, 0)
 	dcmiOp('M', [3]int{0, 0, 0}, 0, "empty", [3]string{dcIDs(0, 4), "-", "-"}, 0)
 }
